@@ -1217,6 +1217,11 @@ func fileLevelComments(cx *CheckCtx, cr *CaseRun, ri int, out string, headers, p
 			if f.Doc != nil {
 				for _, cm := range f.Doc.List {
 					for _, l := range strings.Split(cm.Text, "\n") {
+						if t := strings.TrimSpace(l); t == "*/" || t == "/*" {
+							// the markers of a block comment are not comment TEXT (a header whose text
+							// is "* /" would otherwise "be" the closing marker of every block comment)
+							continue
+						}
 						l = squashWS(l)
 						if q := squashWS(first); l == q || strings.TrimPrefix(l, "//") == q || strings.TrimPrefix(l, "/*") == q {
 							inDoc = true
